@@ -4,6 +4,7 @@ import (
 	"fmt"
 	"strings"
 
+	goerrors "github.com/ajitpratap0/GoSQLX/pkg/errors"
 	"github.com/ajitpratap0/GoSQLX/pkg/models"
 	"github.com/ajitpratap0/GoSQLX/pkg/sql/ast"
 )
@@ -15,6 +16,19 @@ func (p *Parser) parseMatchAgainst(matchFunc *ast.FunctionCall) (ast.Expression,
 		return nil, p.expectedError("(")
 	}
 	p.advance() // Consume (
+
+	// MATCH(..) AGAINST(MATCH(..) AGAINST(..)) recurses without passing through
+	// parseExpression, so the nesting level is accounted for here
+	p.depth++
+	defer func() { p.depth-- }()
+	if p.depth > MaxRecursionDepth {
+		return nil, goerrors.RecursionDepthLimitError(
+			p.depth,
+			MaxRecursionDepth,
+			models.Location{Line: 0, Column: 0},
+			"",
+		)
+	}
 
 	// Parse search expression (just the primary — not full expression, to avoid IN being eaten)
 	searchExpr, err := p.parsePrimaryExpression()
